@@ -77,6 +77,25 @@ CHECKS.update({
    note="accept-all configuration; no objectives; the tolerance band between the two margins is not generated (don't-care)"),
 })
 
+CHECKS.update({
+ "C02": dict(level="exploration", engine="libFuzzer", design="3/C02",
+   technique="coverage-guided fuzzing (libFuzzer, ASan+UBSan) of ReadNLString/ReadNLFile with the oracle inside the target: validating recording handler, mp::Problem and null handlers, bounds-first flag, string-vs-file differential at page-multiple sizes; plus generated targeted corruptions",
+   text="About 4 million executions per quick run from a seed corpus of generated valid text/binary/byte-swapped NL files. The target aborts when a callback "
+        "is inconsistent with the announced header, an announced count is not delivered, EndInput is misplaced, the two read paths disagree, or a sanitizer "
+        "fires; artifacts are confirmed by three replays.",
+   note="input length <= 6000 bytes; allocation-limit aborts and slow units are load noise; one recorded finding (unbounded recursion depth) is probed by a fixed input"),
+ "C05": dict(level="exploration", engine="rapidcheck", design="3/C05",
+   technique="rapidcheck-generated solutions -> mp::WriteSolFile -> mp::SOLReader2 round trip compared under the stated tolerances; shrunk failures saved as replay files",
+   text="160 short rapidcheck campaigns per quick run (every 4th with +-Inf/NaN) cover message text, 3..9 options, present/absent/shorter vectors, boundary "
+        "and 17-digit doubles, suffixes of all kinds with tables. Three recorded findings are excluded by construction and probed by fixed inputs.",
+   note="the reader is given the true dimensions; CR before LF in message lines is not compared"),
+ "C14": dict(level="exploration", engine="libFuzzer", design="3/C14",
+   technique="coverage-guided fuzzing (libFuzzer, ASan+UBSan) of SOLReader2::ReadSOLFile with varied declared sizes and partial-read handlers; oracle inside the target",
+   text="The target aborts on an undocumented result code, an error without message, an escaping exception, a vector longer than the declared problem size, "
+        "or an overall OK after a vector that failed or was left unread; sanitizer reports count as violations.",
+   note="std::bad_alloc on hostile lengths counts as refusal; input reaches fopen() through a memfd path"),
+})
+
 NOT_APPLICABLE = []
 
 def main():
